@@ -8,6 +8,7 @@ import (
 	"fmt"
 	"math/rand"
 	"os"
+	"os/exec"
 	"runtime"
 	"sort"
 	"strconv"
@@ -53,7 +54,9 @@ func catalogue() []concOp {
 			continue
 		}
 		// the repository's samples and (quick tier) one generated document in three
-		if strings.HasPrefix(d.Name, "x:") && di%every != 0 {
+		// (the streams with and without a character-set designation - family D, numbered from 68 - are all kept: they
+		// differ in nothing else)
+		if strings.HasPrefix(d.Name, "x:") && di%every != 0 && !strings.HasPrefix(d.Name, "x:gen68-") {
 			continue
 		}
 		ops = append(ops, concOp{"read-" + d.Fmt + ":" + d.Name, func() concCall {
@@ -88,15 +91,17 @@ func catalogue() []concOp {
 		if strings.HasPrefix(d.Name, "x:") && ci%(8*every/3+1) != 0 {
 			continue
 		}
-		if _, err := readDoc(d.Fmt, bytes.NewReader(d.Data)); err != nil {
-			continue
-		}
+		// (nothing is read while the catalogue is built: a process must not have seen a document before the call
+		// that is being observed reads it)
 		for _, f := range writeFormats {
 			f := f
 			label := "write-" + f + ":from-" + d.Name
 			ops = append(ops, concOp{label, func() concCall {
-				s, _ := readDoc(d.Fmt, bytes.NewReader(d.Data))
+				s, rerr := readDoc(d.Fmt, bytes.NewReader(d.Data))
 				return concCall{label: label, run: func() string {
+					if rerr != nil || s == nil {
+						return "ERR"
+					}
 					var b bytes.Buffer
 					if err := writeDoc(f, s, &b); err != nil {
 						return "ERR"
@@ -262,6 +267,9 @@ func cmdConc(args []string) error {
 	free := fs.Int("free", 20, "free-running scenarios")
 	combos := fs.Int("combos", 6, "call combinations per schedule set")
 	rounds := fs.Int("rounds", 1, "homogeneous passes per kind of operation (each deals every operation of the kind to 16 goroutines)")
+	aloneOnly := fs.Bool("aloneonly", false, "internal: a fresh process that only runs operations alone, last operation first")
+	apart := fs.Int("apart", 0, "internal: with -aloneonly, the share of the operations this process runs")
+	aparts := fs.Int("aparts", 1, "internal: with -aloneonly, the number of shares")
 	fs.Parse(args)
 	o, err := os.Create(*out)
 	if err != nil {
@@ -283,6 +291,18 @@ func cmdConc(args []string) error {
 		}
 		enc.Encode(ev)
 	}
+	if *aloneOnly {
+		for i := len(ops) - 1; i >= 0; i-- {
+			if i%*aparts != *apart {
+				continue
+			}
+			fpb := astisub.VerifTablesFingerprint()
+			c := ops[i].mk()
+			d := c.run()
+			put(concEvent{Mode: "alone", Call: ops[i].label, Digest: d, Fpb: fpb, Fpa: astisub.VerifTablesFingerprint()})
+		}
+		return nil
+	}
 	// alone: the reference result of every operation
 	for _, op := range ops {
 		fpb := astisub.VerifTablesFingerprint()
@@ -297,6 +317,38 @@ func cmdConc(args []string) error {
 		c := ops[i].mk()
 		d := c.run()
 		put(concEvent{Mode: "alone", Call: ops[i].label, Digest: d, Fpb: fpb, Fpa: astisub.VerifTablesFingerprint()})
+	}
+	// and in fresh processes, each running one share of the operations in the opposite order: whatever a call leaves
+	// behind in package-level state for the rest of its process (a cache, a pool) reaches a given later call in this
+	// process but, with other neighbours there, not in the other one
+	const shares = 8
+	for k := 0; k < shares; k++ {
+		tmp := fmt.Sprintf("%s.alone%d", *out, k)
+		bin := os.Args[0]
+		if p := os.Getenv("VERIF_PLAIN_DRIVE"); p != "" {
+			bin = p // the race-detector build is several times slower and the single-threaded passes do not need it
+		}
+		cmd := exec.Command(bin, "conc", "-aloneonly", "-apart", strconv.Itoa(k), "-aparts", strconv.Itoa(shares), "-out", tmp)
+		cmd.Env = os.Environ()
+		if outb, err := cmd.CombinedOutput(); err != nil {
+			return fmt.Errorf("alone-only child: %v: %s", err, outb)
+		}
+		f, err := os.Open(tmp)
+		if err != nil {
+			return err
+		}
+		sc := bufio.NewScanner(f)
+		sc.Buffer(make([]byte, 1<<20), 1<<26)
+		for sc.Scan() {
+			var ev concEvent
+			if err := json.Unmarshal(sc.Bytes(), &ev); err != nil {
+				return err
+			}
+			ev.Procs = -1 - k // marks the other process
+			put(ev)
+		}
+		f.Close()
+		os.Remove(tmp)
 	}
 	// gated interleavings
 	var scheds [][]int
